@@ -18,10 +18,13 @@ from vlib.flow import load_corpus
 
 RULE = ("scenarios + planning-problem sets generated from one seed each as for C01 (props/codec_gen.py, fmt=pb: enum "
         "members and state attributes restricted to those the .proto knows; static obstacles with and without signal "
-        "series; point-mass trajectories included); 40% with the edge stream of magnitudes; plus the same scenarios "
-        "with objects reset to their constructor defaults (props/c02_gen.py: absent optional data). distinct = "
-        "distinct (seed, variant); non-trivial = at least one obstacle / sign / light. Relations A / B on the first "
-        "40 (quick) / 400 (thorough) of them; enum correspondence exhaustive over all members.")
+        "series; point-mass trajectories included); 40% with the edge stream of magnitudes; plus n/3 variants of such "
+        "scenarios (props/c02_gen.py): 'defaults' = objects rebuilt through the public constructors with only their "
+        "mandatory arguments (absent optional data), lights with independent active flags; 'twins' = added occupancies "
+        "/ obstacles / goal regions whose shapes are last-bit twins (numpy.nextafter, signed zero) of shapes already "
+        "in the scenario. Comparison: canonical content with tolerance 0, then every float by its 8 bytes. distinct = "
+        "distinct (seed, variant); non-trivial = at least one obstacle / sign / light. Relations A / B on 40 (quick) / "
+        "400 (thorough) of the scenarios (3/4 plain, 1/4 variants); enum correspondence exhaustive over all members.")
 ASSUME = ["protobuf ParseFromString . SerializeToString is the identity on messages; ListFields / HasField report the "
           "fields a message holds (the message -> tree conversion uses nothing else)",
           "sets are compared as sets (repeated scalar fields the API holds as sets are sorted on both sides)",
@@ -29,10 +32,8 @@ ASSUME = ["protobuf ParseFromString . SerializeToString is the identity on messa
 
 
 def build(case):
-    if case.get("variant"):
-        from props import c02_gen
-        return c02_gen.build(case)
-    return codec_run.build(case)
+    from props import c02_gen
+    return c02_gen.build(case)
 
 
 def gen(rng, n):
@@ -42,10 +43,8 @@ def gen(rng, n):
 
 
 def roundtrip_results(case):
-    if case.get("variant"):
-        from props import c02_gen
-        return c02_gen.oracle_all(case)
-    return codec_run.oracle_roundtrip_all(case)
+    from props import c02_gen
+    return c02_gen.oracle_all(case)
 
 
 def oracle(case):
@@ -161,7 +160,7 @@ def run(ctx):
                  "static": len(sc.static_obstacles), "dynamic": len(sc.dynamic_obstacles),
                  "phantom": len(sc.phantom_obstacle), "environment": len(sc.environment_obstacle)}
             ctx.count(c, d["static"] + d["dynamic"] + d["phantom"] + d["environment"] + d["signs"] + d["lights"] > 0,
-                      "pb scenario" + (" (constructor defaults)" if c.get("variant") else "")
+                      "pb scenario" + (f" ({c['variant']})" if c.get("variant") else "")
                       + (" (edge magnitudes)" if c.get("edge") else ""))
             for k in d:
                 ctx.dist["total " + k] = ctx.dist.get("total " + k, 0) + d[k]
